@@ -251,6 +251,9 @@ Fixpoint vexpr (track : bool) (e : expr) (stk : stack) (s : st) {struct e} : st 
   | ELoad n attrs => load s stk (n :: attrs)
   | EOp es => (fix go (l : list expr) (s : st) : st :=
                  match l with [] => s | x :: r => go r (vexpr track x stk s) end) es s
+  | EAttr e _ =>
+      (* visit_Attribute on a non-Name base: generic_visit(node) visits the base expression *)
+      vexpr track e stk s
   | ELambda ps defaults body =>
       (* visit_Lambda: with _NewScopeCtx(include_class_scopes=True): visit(args) ... *)
       let '(stkA, s1) := push s stk true false false in
